@@ -143,6 +143,32 @@ def build(sc: dict):
             for p in r.network_interface:
                 r.enable_port(p)
         info = {"b_ip": b_ip, "b_net": "10.0.2.0/24", "d_ip": "10.0.2.21"}
+    elif fam == "wireless":
+        # A, C - SW1 - R1 (WirelessRouter: port 2 wired, port 1 = access point) ~~ airspace ~~ R2 (WirelessRouter) - SW2 - B.
+        # The airspace with two enabled access points on one frequency is the wire between their ports (Model/Filter: kind router;
+        # WirelessAccessPoint.receive_frame has the shape of RouterInterface.receive_frame - Gen.FilterPower.wapReceive).
+        from primaite.simulator.network.hardware.nodes.network.wireless_router import WirelessRouter
+        b_ip = "10.0.2.20"
+        add(_host(Computer, "A", A_IP, "10.0.1.1", shut)); add(_host(Computer, "C", C_IP, "10.0.1.1", shut))
+        add(_host(Server, "B", b_ip, "10.0.2.1", shut))
+        sw("SW1"); sw("SW2")
+        for name in ("R1", "R2"):
+            r = WirelessRouter.from_config({"type": "wireless-router", "hostname": name, "start_up_duration": 0,
+                                            "shut_down_duration": shut}, airspace=net.airspace)
+            r.power_on(); add(r)
+            r.acl.add_rule(action=ACLAction.PERMIT, position=10)
+        N["R1"].configure_router_interface("10.0.1.1", "255.255.255.0")
+        N["R2"].configure_router_interface("10.0.2.1", "255.255.255.0")
+        link("A", 1, "SW1", 1, "A-SW1"); link("C", 1, "SW1", 2, "C-SW1"); link("SW1", 6, "R1", 2, "SW1-R1")
+        link("R2", 2, "SW2", 6, "R2-SW2"); link("B", 1, "SW2", 1, "SW2-B")
+        N["R1"].configure_wireless_access_point("10.0.9.1", "255.255.255.252")
+        N["R2"].configure_wireless_access_point("10.0.9.2", "255.255.255.252")
+        N["R1"].route_table.add_route("10.0.2.0", "255.255.255.0", "10.0.9.2")
+        N["R2"].route_table.add_route("10.0.1.0", "255.255.255.0", "10.0.9.1")
+        for r in (N["R1"], N["R2"]):
+            for p_ in r.network_interface:
+                r.enable_port(p_)
+        info = {"b_ip": b_ip, "b_net": "10.0.2.0/24"}
     elif fam == "firewall":
         zones = {"ext": ("10.0.1", 1), "int": ("10.0.2", 2), "dmz": ("10.0.3", 3)}
         za, zb = sc["a_zone"], sc["b_zone"]
@@ -231,6 +257,8 @@ BLOCKS = {
     "routed": ["router_deny_anyany", "router_deny_src_exact", "router_deny_src_range", "router_deny_dst_exact",
                "router_deny_three_protocols", "router_deny_four_protocols", "router_port_a_disabled", "router_port_b_disabled", "router_off", "missing_link",
                "removed_link", "sw2_off", "b_off", "b_nic_disabled"],
+    "wireless": ["router_deny_anyany", "router_deny_dst_exact", "router_deny_src_range", "router_off", "wap_disabled",
+                 "wap_other_frequency", "removed_link", "sw2_off", "b_off"],
     "firewall": ["fw_first_stage_deny", "fw_first_stage_empty", "fw_second_stage_deny", "fw_port_a_disabled", "fw_port_b_disabled",
                  "fw_off", "missing_link", "b_off"],
 }
@@ -240,6 +268,8 @@ def edges(sc: dict) -> List[tuple]:
     fam = sc["family"]
     if fam == "switched":
         return [("A", "SW1"), ("C", "SW1"), ("SW1", "SW2"), ("SW2", "B")]
+    if fam == "wireless":
+        return [("A", "SW1"), ("C", "SW1"), ("SW1", "R1"), ("R1", "R2"), ("R2", "SW2"), ("SW2", "B")]
     if fam == "routed":
         mid = [("R1", "SW2")] if sc.get("routers", 1) == 1 else [("R1", "R2"), ("R2", "SW2")]
         return [("A", "SW1"), ("C", "SW1"), ("SW1", "R1")] + mid + [("SW2", "B")] + ([("SW2", "D")] if sc.get("third_host") else [])
@@ -260,6 +290,8 @@ def protected(sc: dict) -> List[str]:
     removed, barrier = [], []
     at = sc.get("at", "R1")
     r_in = ("SW1", "R1") if at == "R1" else ("R1", "R2")
+    if m in ("wap_disabled", "wap_other_frequency"):
+        removed = [("R1", "R2")]
     r_out = ("R1", "SW2") if sc.get("routers", 1) == 1 else (("R1", "R2") if at == "R1" else ("R2", "SW2"))
     if m in ("sw1_uplink_disabled", "sw2_uplink_disabled"):
         removed = [("SW1", "SW2")]
@@ -276,6 +308,8 @@ def protected(sc: dict) -> List[str]:
         removed = [e for e in es if x in e]
     elif m.startswith("router_deny"):
         barrier = [at]
+    elif m in ("wap_disabled", "wap_other_frequency"):
+        pass
     elif m == "router_port_a_disabled":
         removed = [r_in]
     elif m == "router_port_b_disabled":
@@ -307,7 +341,7 @@ def protected(sc: dict) -> List[str]:
 CERTIFIABLE = {"sw1_uplink_disabled", "sw2_uplink_disabled", "sw2_b_port_disabled", "b_nic_disabled", "a_nic_disabled",
                "missing_link", "removed_link", "sw2_off", "sw1_off", "b_off", "router_deny_anyany", "router_port_a_disabled",
                "router_port_b_disabled", "router_off", "fw_first_stage_deny", "fw_first_stage_empty", "fw_port_a_disabled",
-               "fw_port_b_disabled", "fw_off"}
+               "fw_port_b_disabled", "fw_off", "wap_disabled", "wap_other_frequency"}
 
 
 def class_patterns(sc: dict, info: dict) -> List[dict]:
@@ -373,7 +407,8 @@ def roles_for(sc: dict) -> Dict[str, str]:
     return {
         "sw1_uplink_disabled": {"SW1": "ifaceDown"}, "sw2_uplink_disabled": {"SW2": "frozen"},
         "sw2_b_port_disabled": {"SW2": "ifaceDown"}, "b_nic_disabled": {"B": "frozen"}, "b_off": {"B": "frozen"},
-        "a_nic_disabled": {"A": "ifaceDown", "C": "ifaceDown"}, "missing_link": {}, "removed_link": {},
+        "a_nic_disabled": {"A": "ifaceDown", "C": "ifaceDown"}, "missing_link": {}, "removed_link": {}, "wap_other_frequency": {},
+        "wap_disabled": {at: "ifaceDown" if at == "R1" else "frozen"},
         "sw2_off": {"SW2": "frozen"}, "sw1_off": {"SW1": "frozen"}, "router_off": {at: "routerOff"}, "fw_off": {"FW": "frozen"},
         "router_port_a_disabled": {at: "frozen"}, "router_port_b_disabled": {at: "ifaceDown"},
         "fw_port_a_disabled": {"FW": "frozen"}, "fw_port_b_disabled": {"FW": "ifaceDown"},
@@ -422,6 +457,16 @@ def topo_lines(sc: dict, sim, N, prot: List[str], info: Optional[dict] = None) -
         a, b = link.endpoint_a, link.endpoint_b
         lines.append(f"t-wire {idx[a._connected_node.config.hostname]} {a.port_num - 1} "
                      f"{idx[b._connected_node.config.hostname]} {b.port_num - 1}")
+    air_pairs = []
+    for _freq, wis in sim.network.airspace.wireless_interfaces_by_frequency.items():
+        on_air = [w for w in wis if w.enabled and w._connected_node is not None]
+        if len(on_air) > 2:
+            raise RuntimeError("more than two access points on one frequency: the airspace is then not a wire (not modelled)")
+        if len(on_air) == 2:
+            air_pairs.append(tuple(on_air))
+            a, b = on_air
+            lines.append(f"t-wire {idx[a._connected_node.config.hostname]} {a.port_num - 1} "
+                         f"{idx[b._connected_node.config.hostname]} {b.port_num - 1}")
     o = lambda v: "-" if v is None else str(v)
     for c in class_patterns(sc, info or {"a_ip": A_IP, "b_ip": "10.0.2.20"}):
         lines.append(f"t-class {o(c['proto'])} {o(c['src_ip'])} {o(c['src_wc'])} {o(c['dst_ip'])} {o(c['dst_wc'])} - -")
@@ -440,6 +485,8 @@ def topo_lines(sc: dict, sim, N, prot: List[str], info: Optional[dict] = None) -
 
     for link in sim.network.links.values():
         a, b = link.endpoint_a, link.endpoint_b
+        parent[find((a._connected_node.config.hostname, a.port_num))] = find((b._connected_node.config.hostname, b.port_num))
+    for a, b in air_pairs:
         parent[find((a._connected_node.config.hostname, a.port_num))] = find((b._connected_node.config.hostname, b.port_num))
     for h in names:
         if isinstance(N[h], Switch):
@@ -559,7 +606,8 @@ def transitional_scenarios(rng: Rng, every_duration: bool) -> List[dict]:
     devices = [("switched", "sw1_off", {}), ("switched", "sw2_off", {}), ("switched", "b_off", {}),
                ("routed", "router_off", {"routers": 1, "at": "R1"}), ("routed", "router_off", {"routers": 2, "at": "R2"}),
                ("routed", "sw2_off", {"routers": 1, "at": "R1"}), ("routed", "b_off", {"routers": 1, "at": "R1"}),
-               ("firewall", "fw_off", None), ("firewall", "b_off", None)]
+               ("firewall", "fw_off", None), ("firewall", "b_off", None),
+               ("wireless", "router_off", {"routers": 2, "at": "R1"}), ("wireless", "router_off", {"routers": 2, "at": "R2"})]
     attack = ["ping", "data_manip", "db_query_new", "port_scan_tcp", "port_scan_udp", "c_ping", "ransomware", "dos", "ftp_send",
               "web_get", "port_scan_none", "ping_scan", "term_login"]
     out = []
@@ -603,6 +651,11 @@ def apply_block(sc: dict, sim, N, info, timestep_fn):
             ok = {"shutdown": n.power_off, "startup": n.power_on, "reset": n.reset}[verb]()
             if not ok:
                 raise RuntimeError(f"transitional scenario: {verb} on {n.config.hostname} refused")
+        info["pw_line"](f"pw {verb}")
+
+    def set_boot(n):
+        n.config.start_up_duration = sc["boot"]
+        info["pw_line"](f"pw-updur {sc['boot']}")
 
     def power_off(n):
         phase = sc.get("phase")
@@ -612,15 +665,17 @@ def apply_block(sc: dict, sim, N, info, timestep_fn):
             return
         if phase == "reset":
             # reset = SHUTTING_DOWN (shut ticks) -> OFF -> BOOTING (boot ticks) -> ON: the whole window is a block
-            n.config.start_up_duration = sc["boot"]
+            set_boot(n)
             _power(n, "reset")
             return
         n.power_off()
+        if "pw_line" in info:
+            info["pw_line"]("pw shutdown")
         for _ in range(n.config.shut_down_duration + 2):
             timestep_fn()
         if phase == "boot":
             # the device is OFF; the defender starts it: it stays BOOTING (not ON) for `boot` more ticks
-            n.config.start_up_duration = sc["boot"]
+            set_boot(n)
             _power(n, "startup")
 
     if m == "sw1_uplink_disabled":
@@ -662,6 +717,13 @@ def apply_block(sc: dict, sim, N, info, timestep_fn):
             # every value frame.ip.protocol can take: THIS is a block (three rules are not: protocol "none" passes)
             for i, pr in enumerate(("tcp", "udp", "icmp", "none")):
                 r.acl.add_rule(action=ACLAction.DENY, protocol=pr, position=pos + i)
+    elif m == "wap_disabled":
+        N[sc.get("at", "R1")].wireless_access_point.disable()
+    elif m == "wap_other_frequency":
+        from primaite.simulator.network.airspace import AirSpaceFrequency
+        r = N[sc.get("at", "R2")]
+        wap = r.wireless_access_point
+        r.configure_wireless_access_point(wap.ip_address, wap.subnet_mask, AirSpaceFrequency._registry["WIFI_5"])
     elif m == "router_port_a_disabled":
         N[sc.get("at", "R1")].disable_port(1)
     elif m == "router_port_b_disabled":
@@ -788,7 +850,9 @@ def do_op(op: str, N, info) -> str:
         # DEFENDER-side operation of the transitional family (kept in the idle run too): somebody tries to bring the interfaces of the
         # device that is being powered off / booted back up (enable() must refuse while the node is not ON: POp.ifEnable)
         dev = N[info["power_device"]]
-        return ",".join(str(bool(ni.enable())) for _, ni in sorted(dev.network_interface.items()))
+        out = ",".join(str(bool(ni.enable())) for _, ni in sorted(dev.network_interface.items()))
+        info["pw_line"]("pw ifenable")
+        return out
     raise ValueError(op)
 
 
@@ -817,6 +881,27 @@ def _run_once(sc: dict, with_block: bool, post_ops: List[str], wrappers: bool, p
             if hasattr(n, attr):
                 owner[id(getattr(n, attr))] = (n, attr)
 
+    # power correspondence (transitional scenarios): every power request, every tick and every re-enable attempt performed on the device
+    # is ALSO a line for the Lean driver, which executes the translated programs of Model/FilterPower.lean (`exec`); the device's
+    # (operating state, interface flags) after each line is compared with the model's answer in run()
+    pw = {"lines": [], "impl": []}
+    pw_dev = N.get(power_device(sc)) if (sc.get("phase") and with_block) else None
+
+    def pw_bits(kind):
+        out = ""
+        for _p, ni in sorted(pw_dev.network_interface.items()):
+            if kind == "enabled":
+                out += "1" if ni.enabled else "0"
+            else:
+                out += "1" if (not hasattr(ni, "_connected_link") or ni._connected_link is not None) else "0"
+        return out
+
+    def pw_line(line):
+        if pw_dev is not None and (pw["lines"] or line.startswith("pw-new")):
+            pw["lines"].append(line)
+            pw["impl"].append(f"{pw_dev.operating_state.name} {pw_bits('enabled')}")
+    info["pw_line"] = pw_line
+
     def tick():
         try:
             sim.pre_timestep(t["n"])
@@ -824,6 +909,7 @@ def _run_once(sc: dict, with_block: bool, post_ops: List[str], wrappers: bool, p
         except Exception as e:  # a timestep that raises is C01's business; recorded, the run goes on
             errors.append(f"tick: {type(e).__name__}: {str(e)[:80]}")
         t["n"] += 1
+        pw_line("pw tick")
 
     def guarded(op, then_tick=True):
         try:
@@ -1004,6 +1090,30 @@ def _run_once(sc: dict, with_block: bool, post_ops: List[str], wrappers: bool, p
             frame_viol.append(f"{d[0].config.hostname} sent on a frame its {d[1]} denied")
         return real_tx(self, sender_nic, frame)
 
+    from primaite.simulator.network.airspace import AirSpace
+    real_air = AirSpace.transmit
+
+    class _AirWire:
+        """the airspace seen from one sender as a wire to the other enabled access point of its frequency (at most one: topo_lines)"""
+        def __init__(self, sender, peers):
+            self.endpoint_a, self.endpoint_b = sender, (peers[0] if peers else None)
+
+    def air_tx(self, frame, sender_network_interface):
+        peers = [w for w in self.wireless_interfaces_by_frequency.get(sender_network_interface.frequency.frequency_hz, [])
+                 if w != sender_network_interface and w.enabled]
+        model_ok["air"] = model_ok.get("air", 0) + 1
+        holder = {"done": False}
+
+        def once(_self, _nic, _frame):
+            holder["done"] = True
+        nonlocal real_tx
+        keep_tx, real_tx = real_tx, once
+        try:
+            tx(_AirWire(sender_network_interface, peers), sender_network_interface, frame)  # same checks as on a cable
+        finally:
+            real_tx = keep_tx
+        return real_air(self, frame, sender_network_interface)
+
     def srx(self, frame, from_network_interface):
         d = denied.get(id(frame))
         if d is not None and self.node is d[0]:
@@ -1020,6 +1130,7 @@ def _run_once(sc: dict, with_block: bool, post_ops: List[str], wrappers: bool, p
         if wrappers:
             es.enter_context(mock.patch.object(AccessControlList, "is_permitted", isp))
             es.enter_context(mock.patch.object(Link, "transmit_frame", tx))
+            es.enter_context(mock.patch.object(AirSpace, "transmit", air_tx))
             es.enter_context(mock.patch.object(SessionManager, "receive_frame", srx))
             es.enter_context(mock.patch.object(Router, "process_frame", proc))
             es.enter_context(mock.patch.object(Switch, "receive_frame", swrx))
@@ -1028,6 +1139,8 @@ def _run_once(sc: dict, with_block: bool, post_ops: List[str], wrappers: bool, p
         tick()
         for op in sc["pre_ops"]:
             guarded(op)
+        if pw_dev is not None:
+            pw_line(f"pw-new {pw_dev.config.start_up_duration} {pw_dev.config.shut_down_duration} {pw_bits('enabled')} {pw_bits('linked')}")
         if with_block:
             apply_block(sc, sim, N, info, tick)
         # transitional scenarios (`phase`): the first operation of A falls into the very step of the accepted request, the k-th one
@@ -1052,7 +1165,7 @@ def _run_once(sc: dict, with_block: bool, post_ops: List[str], wrappers: bool, p
                 # the scenario is built so that A acts at EVERY tick of the window; if the device's states at A's operations are
                 # not the expected ones the scenario does not test what it says (C12 owns the timing itself)
                 errors.append(f"power-trace: {power_trace} expected {want}")
-    return {"power_trace": power_trace, "obs": {h: node_obs(N[h]) for h in prot}, "at_block": at_block, "topo": topo, "to_prot": to_prot["n"], "to_prot_arp": to_prot["arp"], "log": log, "errors": errors,
+    return {"pw": pw, "power_trace": power_trace, "obs": {h: node_obs(N[h]) for h in prot}, "at_block": at_block, "topo": topo, "to_prot": to_prot["n"], "to_prot_arp": to_prot["arp"], "log": log, "errors": errors,
             "frame_viol": frame_viol, "closure": closure, "model_ok": model_ok, "model_bad": model_bad[:3]}
 
 
@@ -1095,7 +1208,7 @@ def run_scenario(sc: dict, control: bool = True) -> dict:
     violations.sort(key=lambda v: 0 if v.get("node") == "B" else 1)
     for v in sorted(set(attack["frame_viol"])):
         violations.append({"kind": "denied-frame-not-inert", "what": v})
-    res = {"power_trace": attack["power_trace"], "violations": violations, "log": attack["log"], "errors": attack["errors"], "nontrivial": None, "protected": prot,
+    res = {"pw": attack["pw"], "power_trace": attack["power_trace"], "violations": violations, "log": attack["log"], "errors": attack["errors"], "nontrivial": None, "protected": prot,
            "topo": attack["topo"], "closure": attack["closure"], "topo_ctl": [],
            "model_ok": {k: attack["model_ok"].get(k, 0) + idle["model_ok"].get(k, 0)
                         for k in set(attack["model_ok"]) | set(idle["model_ok"])},
@@ -1111,11 +1224,14 @@ def run_scenario(sc: dict, control: bool = True) -> dict:
 
 # ------------------------------------------------------------------------------------------ generation
 def gen_scenario(rng: Rng, max_ops: int = 8) -> dict:
-    fam = rng.choice(["switched", "routed", "routed", "firewall", "firewall"])
+    fam = rng.choice(["switched", "routed", "routed", "firewall", "firewall", "wireless"])
     sc: Dict[str, Any] = {"family": fam, "block": rng.choice(BLOCKS[fam]), "rule_pos": rng.choice([0, 0, 1, 3, 9])}
     if fam == "routed":
         sc["routers"] = rng.choice([1, 1, 2])
         sc["at"] = "R1" if sc["routers"] == 1 else rng.choice(["R1", "R2"])
+    if fam == "wireless":
+        sc["routers"] = 2
+        sc["at"] = rng.choice(["R1", "R2"])
     if fam == "firewall":
         za = rng.choice(["ext", "int", "dmz"])
         sc["a_zone"], sc["b_zone"] = za, rng.choice([z for z in ("ext", "int", "dmz") if z != za])
@@ -1126,7 +1242,8 @@ def gen_scenario(rng: Rng, max_ops: int = 8) -> dict:
             sc["b_behind_router"] = True
     if sc["block"] in ("missing_link", "removed_link"):
         cands = {"switched": ["SW1-SW2", "SW2-B"], "routed": ["SW1-R1", "R1-SW2" if sc.get("routers") == 1 else "R1-R2", "SW2-B"],
-                 "firewall": ["SW1-FW", "FW-RI" if sc.get("b_behind_router") else "FW-SW2", "SW2-B"]}[fam]
+                 "firewall": ["SW1-FW", "FW-RI" if sc.get("b_behind_router") else "FW-SW2", "SW2-B"],
+                 "wireless": ["SW1-R1", "R2-SW2", "SW2-B"]}[fam]
         name = rng.choice(cands)
         if sc["block"] == "missing_link":
             sc["missing_links"] = [name]
@@ -1300,6 +1417,33 @@ def run(ctx: Ctx):
                 # software answers): it does not hold for this run, so the class theorem does not cover the scenario (oracle only)
                 ctx.count(f"net:closure-hypothesis-does-not-hold:{sc['block']}")
                 res["closure_fails"] = True
+    pw_lines, pw_bad, pw_n = [], [], 0
+    for name, sc, res in results:
+        if res["pw"]["lines"]:
+            pw_lines += ["reset"] + res["pw"]["lines"]
+    pw_ans = run_driver("drv_c06", pw_lines) if pw_lines else []
+    k = 0
+    for name, sc, res in results:
+        if not res["pw"]["lines"]:
+            continue
+        k += 1  # reset
+        got = pw_ans[k:k + len(res["pw"]["lines"])]
+        k += len(res["pw"]["lines"])
+        pw_n += len(got)
+        for i, (line, a, b) in enumerate(zip(res["pw"]["lines"], res["pw"]["impl"], got)):
+            ctx.count("net:power-model:" + line.split()[0] + (":" + line.split()[1] if line.startswith("pw ") else ""))
+            if a != b:
+                pw_bad.append(f"{name} {sc['family']}/{sc['block']}/{sc['phase']}: after `{line}` (line {i}) the device is `{a}`, the model `{b}`")
+                if len(pw_bad) <= 3:
+                    ctx.violation({"kind": "power-model-vs-impl", "rig": "net", "op": line.split()[-1] if line.startswith("pw ") else line.split()[0]},
+                                  f"{sc['family']}/{sc['block']}/{sc['phase']}: {power_device(sc)} after `{line}` is `{a}` (operating state, interface "
+                                  f"flags); the translated power programs of Model/FilterPower.lean give `{b}`",
+                                  {"rig": "net", "scenario": sc, "pw_lines": res["pw"]["lines"][:i + 1], "impl": res["pw"]["impl"][:i + 1],
+                                   "model": got[:i + 1], "from": name})
+                break
+    ctx.oblige("rig:R-net power correspondence: the device of every transitional scenario and the Lean interpreter of the translated power "
+               "programs (drv_c06 `pw` lines = the requests, ticks and re-enable attempts the rig performs) agree on (operating state, "
+               f"interface flags) after every line ({pw_n} lines)", "correspondence", not pw_bad, "; ".join(pw_bad[:5]))
     trace_bad = []
     for name, sc, res in results:
         if sc.get("phase"):
